@@ -566,13 +566,42 @@ def _run_proportion_sizes(item, ctx, tier):
         cfgobj = BootstrapConfig(sampling_method="proportion", ratio=ratio)
         case = {"n_pos": n, "n_neg": len(neg), "easy": [ep, en], "ratio": ratio, "answers": "all-default (first k of the population)"}
         ctx.state()
-        orc = rngtree.Oracle((), 100000)
+        orc = rngtree.Oracle((), 400000, cycle_uniform=True)
         with rngtree.owned(orc):
             smp = src.bootstrap_sample(cfgobj)
         ctx.tick()
         if abs(ratio * n - round(ratio * n)) < 1e-9:
             ctx.nontrivial()
         _wellformed(ctx, case, src, smp, pos, neg, ep, en, ("pos", "pos"), "proportion", None, False, ratio)
+        if n >= 1024:
+            # reachability within one deviation: over the default run and the runs that answer "last" (resp. "first")
+            # at one of the first choice points, the largest and the smallest score of each class must each be drawn
+            # at least once (a sampler that can only ever return the low ranks fails this)
+            seen_p, seen_n = set(np.asarray(smp.pos).tolist()), set(np.asarray(smp.neg).tolist())
+            npoints = len(orc.trace)
+            for pt in sorted(set(list(range(0, min(npoints, 6))) + [npoints // 2, max(npoints - 1, 0)])):
+                for how in ("last", "first"):
+                    class Dev(rngtree.Oracle):
+                        def choose(self, kind, params, menu, _pt=pt, _how=how):
+                            if len(self.trace) == _pt:
+                                menu = [(a, p_) for a, p_ in menu if p_ > 0.0]
+                                c = len(menu) - 1 if _how == "last" else 0
+                                self.trace.append((kind, params, menu, c))
+                                return menu[c][0]
+                            return super().choose(kind, params, menu)
+
+                    o2 = Dev((), 400000, cycle_uniform=True)
+                    with rngtree.owned(o2):
+                        s2 = src.bootstrap_sample(cfgobj)
+                    ctx.tick()
+                    _wellformed(ctx, dict(case, deviation=[pt, how]), src, s2, pos, neg, ep, en, ("pos", "pos"), "proportion", None, False, ratio)
+                    seen_p |= set(np.asarray(s2.pos).tolist())
+                    seen_n |= set(np.asarray(s2.neg).tolist())
+            missing = [nm for nm, v, seen in (("largest positive", pos[-1], seen_p), ("smallest positive", pos[0], seen_p),
+                                              ("largest negative", neg[-1], seen_n), ("smallest negative", neg[0], seen_n)) if v not in seen]
+            if missing:
+                ctx.fail("every-source-score-reachable", dict(case, bound="default run + one deviation (first/last answer) at 8 choice points"),
+                         observed=f"never drawn: {missing}", expected="each extreme score drawn in at least one explored run")
     ctx.sample({"kind": "proportion_sizes", "ratios": len(ratios), "sizes": len(sizes)})
     return None
 
